@@ -14,7 +14,7 @@ From Coq Require Import ZArith Floats.SpecFloat Bool List String Ascii.
 Require Import Blots.Num Blots.Outcome Blots.gen.Builtins Blots.Ast Blots.NumText.
 Require Import Blots.gen.NumGrammar.
 Require Import Blots.proofs.NumText Blots.proofs.NumTextStr Blots.proofs.NumTextFloat Blots.proofs.NumTextRT Blots.proofs.NumTextRef Blots.proofs.NumTextDigits Blots.proofs.NumTextJson.
-Require Import Blots.proofs.RadixWide.
+Require Import Blots.proofs.RadixWide Blots.proofs.RadixWideRT.
 Import ListNotations.
 Open Scope string_scope.
 Open Scope Z_scope.
@@ -329,6 +329,74 @@ Check C16_radix_literal_ge_2p63_fixed :
           /\ parse_numexpr_rf true sp "0x20000000000000000000000000000000000000000000000001"
              = PExpr (ENum (num_of_Z (2 ^ 197))).
 Print Assumptions C16_radix_literal_ge_2p63_fixed.
+Print Assumptions closed_marker.
+
+(* the round trips hold on the model of the tree at hand for BOTH literal conversions (radixfix = false
+   pinned, true repaired): printed numbers never reach the 0x / 0b arms, the repair leaves them intact *)
+Theorem C16_source_emission_reads_back_rf :
+  forall (radixfix : bool) (fmt_prec0 display : num -> string) (str_parse : string -> option num) (x : num),
+    valid_binary 53 1024 x = true -> is_finite x = true ->
+    parse_contract str_parse ->
+    (nfract_is_zero x && nltb (nabs x) c1e15 = true -> prec0_contract (fmt_prec0 x) x) ->
+    (nfract_is_zero x && nltb (nabs x) c1e15 = false -> display_contract (display x) x) ->
+    read_source_rf radixfix str_parse (print_num fmt_prec0 display x) = Ok x.
+Proof. exact source_reads_back_rf. Qed.
+Check C16_source_emission_reads_back_rf :
+  forall (radixfix : bool) (fmt_prec0 display : num -> string) (str_parse : string -> option num) (x : num),
+    valid_binary 53 1024 x = true -> is_finite x = true ->
+    parse_contract str_parse ->
+    (nfract_is_zero x && nltb (nabs x) c1e15 = true -> prec0_contract (fmt_prec0 x) x) ->
+    (nfract_is_zero x && nltb (nabs x) c1e15 = false -> display_contract (display x) x) ->
+    read_source_rf radixfix str_parse (print_num fmt_prec0 display x) = Ok x.
+Print Assumptions C16_source_emission_reads_back_rf.
+Print Assumptions closed_marker.
+
+Theorem C16_function_emission_reads_back_rf :
+  forall (radixfix : bool) (fmt_prec0 display : num -> string) (str_parse : string -> option num) (x : num),
+    valid_binary 53 1024 x = true -> is_finite x = true ->
+    parse_contract str_parse ->
+    (nfract_is_zero x && nltb (nabs x) c1e15 = true -> prec0_contract (fmt_prec0 x) x) ->
+    (nfract_is_zero x && nltb (nabs x) c1e15 = false -> display_contract (display x) x) ->
+    read_source_rf radixfix str_parse (emit_num fmt_prec0 display x) = Ok x.
+Proof. exact emission_reads_back_rf. Qed.
+Check C16_function_emission_reads_back_rf :
+  forall (radixfix : bool) (fmt_prec0 display : num -> string) (str_parse : string -> option num) (x : num),
+    valid_binary 53 1024 x = true -> is_finite x = true ->
+    parse_contract str_parse ->
+    (nfract_is_zero x && nltb (nabs x) c1e15 = true -> prec0_contract (fmt_prec0 x) x) ->
+    (nfract_is_zero x && nltb (nabs x) c1e15 = false -> display_contract (display x) x) ->
+    read_source_rf radixfix str_parse (emit_num fmt_prec0 display x) = Ok x.
+Print Assumptions C16_function_emission_reads_back_rf.
+Print Assumptions closed_marker.
+
+Theorem C16_formatter_reads_back_rf :
+  forall (radixfix : bool) (fmt_prec0 display : num -> string) (str_parse : string -> option num) (x : num) (w : option Z),
+    valid_binary 53 1024 x = true -> is_finite x = true ->
+    parse_contract str_parse ->
+    (nfract_is_zero x && nltb (nabs x) c1e15 = true -> prec0_contract (fmt_prec0 x) x) ->
+    (nfract_is_zero x && nltb (nabs x) c1e15 = false -> display_contract (display x) x) ->
+    read_source_rf radixfix str_parse (format_num fmt_prec0 display x w) = Ok x.
+Proof. exact formatter_reads_back_rf. Qed.
+Check C16_formatter_reads_back_rf :
+  forall (radixfix : bool) (fmt_prec0 display : num -> string) (str_parse : string -> option num) (x : num) (w : option Z),
+    valid_binary 53 1024 x = true -> is_finite x = true ->
+    parse_contract str_parse ->
+    (nfract_is_zero x && nltb (nabs x) c1e15 = true -> prec0_contract (fmt_prec0 x) x) ->
+    (nfract_is_zero x && nltb (nabs x) c1e15 = false -> display_contract (display x) x) ->
+    read_source_rf radixfix str_parse (format_num fmt_prec0 display x w) = Ok x.
+Print Assumptions C16_formatter_reads_back_rf.
+Print Assumptions closed_marker.
+
+Theorem C16_plain_text_value_rf :
+  forall radixfix sp s ip fp,
+    parse_contract sp -> all_digits ip = true -> ip <> "" -> all_digits fp = true ->
+    read_source_rf radixfix sp (sign_str s ++ plain ip fp) = Ok (rn_decimal s (digits_val (ip ++ fp) 0) (0 - slen fp)).
+Proof. exact read_source_rf_plain. Qed.
+Check C16_plain_text_value_rf :
+  forall radixfix sp s ip fp,
+    parse_contract sp -> all_digits ip = true -> ip <> "" -> all_digits fp = true ->
+    read_source_rf radixfix sp (sign_str s ++ plain ip fp) = Ok (rn_decimal s (digits_val (ip ++ fp) 0) (0 - slen fp)).
+Print Assumptions C16_plain_text_value_rf.
 Print Assumptions closed_marker.
 
 (* decimal / scientific / leading-dot literals: underscores are erased, everything else goes to
